@@ -20,6 +20,8 @@ for f in sorted(glob.glob(os.path.join(VERIF, 'seeded', '*', 'meta.json'))):
             how.append('statement check on the implementation')
         outcome = ('caught, concrete replay' if conc else
                    ('caught, no-failing-input-found' if v['exit'] else 'MISSED'))
+        if os.path.exists(os.path.join(VERIF, 'seeded', m['id'], 'STALE.txt')):
+            outcome += ' (as recorded; STALE: a later `fix:` commit in /repo made this change harmless, see STALE.txt)'
         rows.append((m['id'], c, title, 'yes' if m.get('valid') else 'NO', outcome, ' + '.join(how)))
 out = ["# Seeded changes and which checks catch them", "",
        "Each change was written by an independent sub-agent that saw only the property text and a scratch worktree of",
